@@ -1,6 +1,146 @@
-use crate::util::Opts;
+//! ls: local-search drivers.
+//!
+//! --mode fix  (C08): start = improve_depots(MCF); run the real local search (hook H1 records every
+//!                    accepted step), then run it again on its own result.
+//! --mode cand (C11): random (not only improving) walks through the neighbourhood; every candidate
+//!                    of every visited schedule is projected.
 
-pub fn run(_opts: &Opts) -> i32 {
-    eprintln!("not implemented yet");
-    2
+use std::sync::Arc;
+
+use model::json_serialisation::load_rolling_stock_problem_instance_from_json;
+use model::network::Network;
+use rapid_solve::heuristics::common::ParallelNeighborhood;
+use rapid_solve::heuristics::Solver;
+use rapid_time::Duration;
+use rayon::iter::ParallelIterator;
+use serde_json::json;
+use solver::local_search::neighborhood::swaps::SwapInfo;
+use solver::local_search::neighborhood::RSSchedParallelNeighborhood;
+use solver::local_search::{build_local_search_solver, ScheduleWithInfo};
+use solver::min_cost_flow_solver::MinCostFlowSolver;
+
+use crate::scheddrive::digest;
+use crate::util::{guarded, read_lines, Opts, Out, Rng};
+
+fn start_schedule(nw: &Arc<Network>) -> ScheduleWithInfo {
+    let mcf = MinCostFlowSolver::initialize(nw.clone()).solve();
+    ScheduleWithInfo::new(mcf.improve_depots(None), SwapInfo::NoSwap, "start".to_string())
+}
+
+fn run_fix(item: &serde_json::Value, out: &mut Out) {
+    let name = item["name"].as_str().unwrap_or("?").to_string();
+    let input = item["input"].clone();
+    out.emit(&json!({"ev": "begin", "name": name}));
+    out.flush();
+    let res = guarded(|| {
+        let nw = load_rolling_stock_problem_instance_from_json(input);
+        let start = start_schedule(&nw);
+        solution::verif::enable();
+        solution::verif::record_stage("start", start.get_schedule());
+        let solver = build_local_search_solver(nw.clone());
+        let result = solver.solve(start);
+        solution::verif::record_stage("ls", result.solution().get_schedule());
+        let first = solution::verif::drain();
+        // run it again on its own result
+        let again = ScheduleWithInfo::new(result.solution().get_schedule().clone(), SwapInfo::NoSwap, "rerun".to_string());
+        let result2 = solver.solve(again);
+        let second = solution::verif::drain();
+        solution::verif::disable();
+        (first, second.len(), solution::verif::project(result2.solution().get_schedule()))
+    });
+    match res {
+        Ok((first, nsteps2, s2)) => {
+            for e in first {
+                out.emit_raw(&e);
+            }
+            out.emit(&json!({"ev": "rerun", "name": name, "nsteps": nsteps2, "S": s2}));
+            out.emit(&json!({"ev": "end", "name": name, "status": "ok"}));
+        }
+        Err(msg) => {
+            solution::verif::disable();
+            out.emit(&json!({"ev": "panic", "name": name, "msg": msg}));
+            out.emit(&json!({"ev": "end", "name": name, "status": "panic"}));
+        }
+    }
+    out.flush();
+}
+
+fn run_cand(item: &serde_json::Value, out: &mut Out, max_cands: usize) {
+    let name = item["name"].as_str().unwrap_or("?").to_string();
+    let input = item["input"].clone();
+    let steps = item["steps"].as_u64().unwrap_or(6);
+    let mut rng = Rng(item["seed"].as_u64().unwrap_or(1) ^ 0x2545F4914F6CDD1D);
+    out.emit(&json!({"ev": "begin", "name": name}));
+    out.flush();
+    let nw = match guarded(|| load_rolling_stock_problem_instance_from_json(input)) {
+        Ok(nw) => nw,
+        Err(msg) => {
+            out.emit(&json!({"ev": "panic", "name": name, "msg": msg}));
+            out.emit(&json!({"ev": "end", "name": name, "status": "panic"}));
+            return;
+        }
+    };
+    let mut base = match guarded(|| start_schedule(&nw)) {
+        Ok(b) => b,
+        Err(msg) => {
+            out.emit(&json!({"ev": "panic", "name": name, "msg": msg}));
+            out.emit(&json!({"ev": "end", "name": name, "status": "panic"}));
+            return;
+        }
+    };
+    let neighborhood = RSSchedParallelNeighborhood::new(Some(Duration::new("3:00:00")), Some(Duration::new("0:10:00")), nw.clone());
+    for _ in 0..steps {
+        let before = solution::verif::project(base.get_schedule());
+        let hb = digest(&before);
+        out.emit(&json!({"ev": "base", "name": name, "S": before}));
+        let cands = guarded(|| neighborhood.neighbors_of(&base).collect::<Vec<ScheduleWithInfo>>());
+        let ha = digest(&solution::verif::project(base.get_schedule()));
+        match cands {
+            Ok(cands) => {
+                let n = cands.len();
+                let stride = (n + max_cands - 1) / max_cands.max(1);
+                let stride = stride.max(1);
+                let offset = if stride > 1 { rng.below(stride) } else { 0 };
+                let mut logged = 0;
+                for (i, c) in cands.iter().enumerate() {
+                    if i % stride != offset {
+                        continue;
+                    }
+                    match guarded(|| solution::verif::project(c.get_schedule())) {
+                        Ok(p) => out.emit(&json!({"ev": "cand", "name": name, "swap": c.get_print_text(), "S": p})),
+                        Err(m) => out.emit(&json!({"ev": "candfail", "name": name, "swap": c.get_print_text(), "msg": m})),
+                    }
+                    logged += 1;
+                }
+                out.emit(&json!({"ev": "enum", "name": name, "ok": true, "panic": false, "n": n, "logged": logged, "hb": hb, "ha": ha}));
+                if n == 0 {
+                    break;
+                }
+                base = cands[rng.below(n)].clone();
+            }
+            Err(msg) => {
+                out.emit(&json!({"ev": "enum", "name": name, "ok": false, "panic": true, "msg": msg, "n": 0, "logged": 0, "hb": hb, "ha": ha}));
+                break;
+            }
+        }
+        out.flush();
+    }
+    out.emit(&json!({"ev": "end", "name": name, "status": "ok"}));
+    out.flush();
+}
+
+pub fn run(opts: &Opts) -> i32 {
+    let inputs = read_lines(opts.req("in"));
+    let mut out = Out::create(opts.req("out"));
+    let mode = opts.get("mode").unwrap_or("fix").to_string();
+    let skip = opts.num("skip", 0) as usize;
+    let max_cands = opts.num("max-cands", 120) as usize;
+    for item in inputs.iter().skip(skip) {
+        if mode == "fix" {
+            run_fix(item, &mut out);
+        } else {
+            run_cand(item, &mut out, max_cands);
+        }
+    }
+    0
 }
